@@ -124,7 +124,7 @@ def rules_c08(ctx):
     S = p_search
     return (S.rule_range_form(ctx, 'compressed') + S.rule_agree_eps(ctx, 'compressed') + S.rule_clamp(ctx, 'compressed') + S.rule_cap(ctx, 'compressed') +
             S.rule_kind_compressed(ctx) + S.rule_window_form(ctx, 'compressed') + S.rule_compressed_level(ctx) + p_segmentation.rule_precision(ctx) +
-            S.rule_conv_range(ctx, 'compressed') + S.rule_level_sizes(ctx) + S.rule_upper_level_sentinel(ctx, 'compressed') + S.rule_upper_level_sentinel(ctx, 'pgm', ctx.units))
+            S.rule_conv_range(ctx, 'compressed') + S.rule_keydiff_sign(ctx, 'compressed') + S.rule_level_sizes(ctx) + S.rule_upper_level_sentinel(ctx, 'compressed') + S.rule_upper_level_sentinel(ctx, 'pgm', ctx.units))
 
 
 def rules_c09(ctx):
@@ -136,7 +136,7 @@ def rules_c09(ctx):
 def rules_c10(ctx):
     S = p_search
     return (S.rule_range_form(ctx, 'eliasfano') + S.rule_agree_eps(ctx, 'eliasfano') + S.rule_clamp(ctx, 'eliasfano') + S.rule_cap(ctx, 'eliasfano') +
-            S.rule_rebase_agree(ctx) + S.rule_conv_range(ctx, 'eliasfano') + p_eliasfano.rule_select_range(ctx) + p_eliasfano.rule_beyond_value(ctx) + S.rule_upper_level_sentinel(ctx, 'eliasfano'))
+            S.rule_rebase_agree(ctx) + S.rule_conv_range(ctx, 'eliasfano') + p_eliasfano.rule_select_range(ctx) + p_eliasfano.rule_beyond_value(ctx) + S.rule_upper_level_sentinel(ctx, 'eliasfano') + S.rule_keydiff_sign(ctx, 'eliasfano'))
 
 
 _SEARCH_ND = ('that every constraint point is within Epsilon of its segment, that float slopes and size_t(slope*double(k-key)) round inside the +2 slack, '
